@@ -55,6 +55,14 @@ type c11Case struct {
 	Exp json.RawMessage `json:"exp,omitempty"`
 	// C01: exercise the session after success
 	Session bool `json:"session"`
+	// history: an earlier connection with these configurations runs (and is closed) on the same session stores first,
+	// so that the judged handshake may be a resumption negotiated under ANOTHER policy
+	Pre *c11Pre `json:"pre,omitempty"`
+}
+
+type c11Pre struct {
+	C c11Side `json:"c"`
+	S c11Side `json:"s"`
 }
 
 type c11SideObs struct {
@@ -87,6 +95,7 @@ type c11Alert struct {
 }
 
 type c11Obs struct {
+	PreOK    bool        `json:"preOk"`
 	ID       int         `json:"id"`
 	SetupErr string      `json:"setupErr,omitempty"` // "c: ..." / "s: ..." : option set rejected before any handshake
 	Lab      string      `json:"lab,omitempty"`
@@ -592,8 +601,30 @@ func c11Wire(r *labRun, obs *c11Obs) {
 
 func c11Run(cs *c11Case, timeout, interval time.Duration) c11Obs {
 	obs := c11Obs{ID: cs.ID}
-	r := newLabRun()
 	st := &scenStores{}
+	if cs.Pre != nil {
+		pre := &c11Case{ID: cs.ID, C: cs.Pre.C, S: cs.Pre.S}
+		r0 := newLabRun()
+		co0, so0 := c11Options(pre, st, interval)
+		p0c, p0s := r0.newPeer("c", "c"), r0.newPeer("s", "s")
+		c0, err0 := ClientWithOptions(p0c.end, labAddr("s"), co0...)
+		s0, err1 := ServerWithOptions(p0s.end, labAddr("c"), so0...)
+		if err0 != nil || err1 != nil {
+			obs.SetupErr = fmt.Sprintf("pre: %v / %v", err0, err1)
+			r0.closeAll()
+
+			return obs
+		}
+		p0c.attach(c0)
+		p0s.attach(s0)
+		ce0, se0 := r0.handshakeLossless(timeout)
+		obs.PreOK = ce0 == nil && se0 == nil
+		if obs.PreOK {
+			pingPong(r0)
+		}
+		r0.closeAll()
+	}
+	r := newLabRun()
 	co, so := c11Options(cs, st, interval)
 	pc := r.newPeer("c", "c")
 	ps := r.newPeer("s", "s")
